@@ -4,8 +4,9 @@
 
     The step functions are written ONCE, generically over the representation of a
     table ([tops]): the *model* instantiates it with insertion-ordered association
-    lists (a Python dict) and the code's quirks switched on, the *specification*
-    with total functions  folded-name -> option value  and the quirks switched off. *)
+    lists (a Python dict), the *specification* with total functions
+    folded-name -> option value.  A flag [quirk] keeps the pre-0d55598 behaviour of
+    SymbolTable.clone() expressible (only to state what was wrong, cf. [mouts_old]). *)
 From Coq Require Import ZArith String Ascii List Bool Arith.
 From LV Require Import Base.Strings.
 Import ListNotations.
@@ -117,7 +118,8 @@ Inductive lk := LFound (i : nat) (v : val) | LMissing | LDiverge.
 Section Sym.
   Context {T : Type}.
   Variable P : tops string val T.
-  (** [quirk = true]: SymbolTable.clone() tests [if self.parent] — an EMPTY parent table is falsy, the link is dropped *)
+  (** [quirk = true]: the behaviour BEFORE commit 0d55598 — SymbolTable.clone() tested [if self.parent], an EMPTY
+      parent table is falsy and the link was dropped.  The code now tests [is not None]: the model uses [quirk = false]. *)
   Variable quirk : bool.
 
   Record gtab := mkTab { t_ents : T; t_parent : option nat; t_scoped : bool }.
@@ -336,33 +338,19 @@ Definition mstate := gstate (T := atab).
 Definition sstate := gstate (T := string -> option val).
 Definition minit : mstate := init.
 Definition sinit : sstate := init.
-Definition mstep : mstate -> op -> mstate * out := step m_ops true.
+Definition mstep : mstate -> op -> mstate * out := step m_ops false.
 Definition sstep : sstate -> op -> sstate * out := step s_ops false.
-Definition mexec := exec m_ops true.
-Definition mouts := outs m_ops true.
+Definition mexec := exec m_ops false.
+Definition mouts := outs m_ops false.
 Definition sexec := exec s_ops false.
 Definition souts := outs s_ops false.
+(** F7c (repaired by 0d55598): the association-list model with the old clone() *)
+Definition mouts_old := outs m_ops true.
 
 (** abstraction function: every association list is read as the function "first binding of the key" *)
 Definition abs_tab (tb : gtab (T := atab)) : gtab (T := string -> option val) :=
   mkTab (fun k => al_get String.eqb k (t_ents tb)) (t_parent tb) (t_scoped tb).
 Definition abs_state (s : mstate) : sstate := mkSt (st_objs s) (map abs_tab (st_tabs s)).
-
-(** the class on which the code meets the specification: no clone() without [parent=] of a table whose parent table is empty *)
-Definition op_ok (s : mstate) (o : op) : bool :=
-  match o with
-  | OClone t PKeep =>
-      match nth_error (st_tabs s) t with
-      | Some tb => match t_parent tb with Some q => negb (parent_empty m_ops s q) | None => true end
-      | None => true
-      end
-  | _ => true
-  end.
-Fixpoint hist_ok (s : mstate) (ops : list op) : bool :=
-  match ops with
-  | [] => true
-  | o :: r => op_ok s o && hist_ok (fst (mstep s o)) r
-  end.
 
 (** two operations that differ at most in the spelling of the names (same folded look-up name) *)
 Definition same_key (a b : string) : Prop := fmt a = fmt b.
